@@ -1,6 +1,6 @@
 (* Executable wrapper of the C11 model: directive lines separated by `;` -> surviving tokens or the error. *)
 From Coq Require Import List NArith Bool String Ascii.
-From RV Require Import Wire Cond GenCond.
+From RV Require Import Wire Cond GenCond CondIncl.
 Import ListNotations.
 Local Open Scope string_scope.
 
@@ -60,7 +60,7 @@ Definition show_perr (e : perr) : string :=
   | MacroError => "MacroError"
   end.
 
-Definition run_top (s : string) : string :=
+Definition run_lines (s : string) : string :=
   match omap parse_line (filter (fun l => negb (String.eqb l "")) (map (fun l => unwords (words l)) (split ";" s))) with
   | None => "PARSE-ERROR"
   | Some ls =>
@@ -68,6 +68,59 @@ Definition run_top (s : string) : string :=
       | inl (_, out) => unwords ("OK" :: map show_otok out)
       | inr e => "ERR " ++ show_perr e
       end
+  end.
+
+(* ---- several files: `F main.rssl : l ; l @ f.h : l ; l` (lines as above, plus include / pragma / bogus) ---- *)
+Definition parse_xline (s : string) : option xline :=
+  match words s with
+  | ["include"; f] => Some (XInclude f)
+  | ["pragma"; "once"] => Some XPragmaOnce
+  | "pragma" :: "warning" :: _ => Some XPragmaWarning
+  | "pragma" :: _ => Some XPragmaOther
+  | ["bogus"] => Some XUnknown
+  | _ => option_map XL (parse_line s)
+  end.
+
+Definition parse_file (s : string) : option (string * list xline) :=
+  match split ":" s with
+  | [name; body] =>
+      match words name with
+      | [n] => option_map (fun ls => (n, ls))
+                 (omap parse_xline (filter (fun l => negb (String.eqb l "")) (map (fun l => unwords (words l)) (split ";" body))))
+      | _ => None
+      end
+  | _ => None
+  end.
+
+Fixpoint find_file (fs : list (string * list xline)) (f : string) : option (list xline) :=
+  match fs with
+  | [] => None
+  | (n, ls) :: r => if String.eqb n f then Some ls else find_file r f
+  end.
+
+Definition show_xerr (e : xerr) : string :=
+  match e with
+  | XE e => show_perr e
+  | XFailedToFindFile => "FailedToFindFile"
+  | XIncludeDepthExceeded => "IncludeDepthExceeded"
+  | XUnknownPragma => "UnknownPragma"
+  | XUnknownCommand => "UnknownCommand"
+  end.
+
+Definition run_files (s : string) : string :=
+  match omap parse_file (split "@" s) with
+  | None => "PARSE-ERROR"
+  | Some fs =>
+      match xrun_file switch eval_cond (find_file fs) max_include_depth "main.rssl" [] with
+      | inl (_, out) => unwords ("OK" :: map show_otok out)
+      | inr e => "ERR " ++ show_xerr e
+      end
+  end.
+
+Definition run_top (s : string) : string :=
+  match s with
+  | String "F" (String " " r) => run_files r
+  | _ => run_lines s
   end.
 
 Require Import ExtrOcamlBasic ExtrOcamlString.
